@@ -66,6 +66,8 @@ theorem pfxA_assigns (p : String) (wd : Nat → Nat) (nm : Nat → String) (k : 
   | nary op ins r ts mid =>
     cases op <;> simp [GKind.assigns, pfxA, pfxL, pfxE, pfxE_binChain, List.map_map, Function.comp_def]
   | dm isMod a b r => simp [GKind.assigns, pfxA, pfxL, pfxE]
+  | equal a b r xr mid x y m0 m1 m2 m3 bits ts nmid => simp [GKind.assigns, pfxA, pfxL, pfxE, lit]
+  | eqc a v r bits ns ts => simp [GKind.assigns, pfxA, pfxL, pfxE, lit]
   | bitsL a bits => exact pfxA_bits p nm a bits
   | bitsM a bits => exact pfxA_bits p nm a bits
   | nand2 a b r t => simp [GKind.assigns, pfxA, pfxL, pfxE]
